@@ -289,7 +289,125 @@ def query_arg_immutable(base, q):
     return True
 
 
+def _obs(u, profile):
+    if profile == 0:
+        return observe_raw(u)
+    if profile == 1:
+        return observe_dec(u)
+    return observe_raw(u) + observe_dec(u)
+
+
+def history_run(progs, profile, warm):
+    """Runs the programs one after the other in this process, keeping every result alive.
+    cold: all caches are cleared before every program.  warm: tiny caches, cache_configure and
+    cache_clear interleaved.  Returns [first, again, cmp_first, cmp_after_left_hash, cmp_final]:
+    the observation of each result when it was created, its observation at the very end,
+    and the comparison operators of neighbouring results before hashing, after hashing
+    only the left operand, and at the end."""
+    import yarl
+    sizes = [2, 0, 1, None, 3]
+    if warm:
+        yarl.cache_configure(idna_encode_size=2, idna_decode_size=2, encode_host_size=2)
+    objs, first = [], []
+    for i, p in enumerate(progs):
+        if not warm:
+            yarl.cache_clear()
+        elif i % 7 == 3:
+            n = sizes[(i // 7) % len(sizes)]
+            yarl.cache_configure(idna_encode_size=n, idna_decode_size=n, encode_host_size=n)
+        elif i % 11 == 5:
+            yarl.cache_clear()
+        try:
+            u = run_prog(p)[-1]
+            objs.append(u)
+            first.append(_obs(u, profile))
+        except BaseException as e:  # noqa: B902
+            if isinstance(e, (KeyboardInterrupt, SystemExit)):
+                raise
+            objs.append(None)
+            first.append(_exn(e))
+
+    def cmp(a, b):
+        if a is None or b is None:
+            return None
+        return [a == b, a < b, a <= b, a > b, a >= b]
+    pairs = [(objs[i], objs[i + 1]) for i in range(len(objs) - 1)]
+    cmp_first = [cmp(a, b) for a, b in pairs]
+    cmp_left = []
+    for a, b in pairs:
+        if a is not None:
+            hash(a)
+        cmp_left.append(cmp(a, b))
+    again = [(_obs(u, profile) if u is not None else first[i]) for i, u in enumerate(objs)]
+    cmp_final = [cmp(a, b) for a, b in pairs]
+    yarl.cache_configure()
+    return [first, again, cmp_first, cmp_left, cmp_final]
+
+
+def threads_run(progs, profile, nthreads, rounds, seed):
+    """Every thread runs every program (in its own order, [rounds] times) against the shared
+    module-level caches while another thread clears / reconfigures them; returns, per thread,
+    the observation of each program's result from the last round (exceptions by type)."""
+    import random
+    import sys
+    import threading
+    import yarl
+    old = sys.getswitchinterval()
+    sys.setswitchinterval(1e-6)
+    shared = []
+    for p in progs:     # a pool of shared objects, created up front
+        try:
+            shared.append(run_prog(p)[-1])
+        except BaseException:  # noqa: B902
+            shared.append(None)
+    results = [[None] * len(progs) for _ in range(nthreads)]
+    stop = threading.Event()
+    start = threading.Barrier(nthreads + 1)
+
+    def worker(tid):
+        rng = random.Random(seed * 1000 + tid)
+        order = list(range(len(progs)))
+        start.wait()
+        for r in range(rounds):
+            rng.shuffle(order)
+            for i in order:
+                try:
+                    if (i + tid + r) % 2 and shared[i] is not None:
+                        u = shared[i]          # accessor reads on a shared object
+                    else:
+                        u = run_prog(progs[i])[-1]
+                    results[tid][i] = _obs(u, profile)
+                except BaseException as e:  # noqa: B902
+                    results[tid][i] = _exn(e)
+
+    def disturber():
+        sizes = [0, 1, None, 2, 256]
+        n = 0
+        start.wait()
+        while not stop.is_set():
+            n += 1
+            if n % 3:
+                yarl.cache_clear()
+            else:
+                k = sizes[n % len(sizes)]
+                yarl.cache_configure(idna_encode_size=k, idna_decode_size=k, encode_host_size=k)
+    ths = [threading.Thread(target=worker, args=(t,)) for t in range(nthreads)]
+    d = threading.Thread(target=disturber)
+    for t in ths:
+        t.start()
+    d.start()
+    for t in ths:
+        t.join()
+    stop.set()
+    d.join()
+    sys.setswitchinterval(old)
+    yarl.cache_configure()
+    return results
+
+
 def register(fn):
+    fn(history_run)
+    fn(threads_run)
     fn(query_arg_immutable)
     fn(oom_sweep)
     fn(oom_url_sweep)
